@@ -108,16 +108,26 @@ def opkey(l):
 def tie(ctx):
     rng = random.Random(ctx.seed * 5413 + 1503)
     schemas = K.rotate(SCHEMAS, ctx.seed, 11 if ctx.tier == "thorough" else 3)
-    per = 16 if ctx.tier == "thorough" else 6
-    nadv = 70 if ctx.tier == "thorough" else 40
+    per = 40 if ctx.tier == "thorough" else 6
+    nadv = 90 if ctx.tier == "thorough" else 40
     scripts = []
     hid = 0
     for s in schemas:
         for _ in range(per):
             hid += 1
             scripts.append(gen_script(rng, s, hid, nadv))
+    # recorded witnesses first (corpus/C15/*.txt written for this mode)
+    cdir = os.path.join(VERIF, "corpus", "C15")
+    corpus = []
+    if os.path.isdir(cdir):
+        for n in sorted(os.listdir(cdir)):
+            lines = [l for l in open(os.path.join(cdir, n)).read().split("\n") if l.strip()]
+            if lines and lines[0] == "#mode " + MODE:
+                corpus.append(lines)
+    scripts = corpus + scripts
     res = K.run_pair(scripts)
     j = K.judge(res, "crates_v1", "v1", lambda s: PREFIX, stale_of, opkey)
+    j["hist"]["corpus_scripts"] = len(corpus)
     return {"ok": j["ok"], "evaluations": j["evaluations"],
             "distinct_nontrivial": j["distinct"],
             "rule": "crates 1.x: scripts of %d adversarial calls (names empty / ';' / 300 bytes / UTF-8, set_parent to self, "
@@ -126,7 +136,7 @@ def tie(ctx):
                     "prefix building a/b/c, d, tracks t1 t2 and removed x/y, tx; %d schemas; model `step` and queries of "
                     "Api/CratesV1.lean vs sanitizer harness; oracle: no `ub` line, stale handle answers; distinct = distinct "
                     "(schema, call line)" % (nadv, len(schemas)),
-            "samples": [scripts[0][PREFIX][:200], scripts[-1][-1][:200]],
+            "samples": [scripts[-2][PREFIX][:200], scripts[-1][-1][:200]],
             "histograms": j["hist"], "divergences": j["divergences"][:10], "violations": j["violations"][:6]}
 
 
